@@ -464,6 +464,7 @@ func resetGlobals() {
 	heapKeySort = map[string]string{}
 	heapKeyType = map[string]types.Type{}
 	heapSortOf = map[string]string{}
+	registerWireHeaps()
 	iterMapTerm = map[string]string{}
 	iterKeyType = map[string]types.Type{}
 	iterOf = map[*ssa.Range]string{}
